@@ -5,34 +5,37 @@ Open Scope string_scope.
 
 (* one recorded call: the operation, what the implementation returned (Ok name; "" when the call returns None)
    or raised, and the implementation state after the call (None = identical to the state before it) *)
-Definition rstep := (op * res string * option Circuit)%type.
+Definition rstep := (xop * res string * option Circuit)%type.
 Inductive case := CHist (start : Circuit) (steps : list rstep).
 
 (* short constructor names for the generated files *)
-Definition A := OAdd.
-Definition Cn := OConnect.
-Definition Dc := ODisconnect.
-Definition Rm := ORemove.
-Definition So := OSetOutput.
+Definition A n t fi fo out u := XO (OAdd n t fi fo out u).
+Definition Cn us vs := XO (OConnect us vs).
+Definition Dc us vs := XO (ODisconnect us vs).
+Definition Rm ns := XO (ORemove ns).
+Definition So ns b := XO (OSetOutput ns b).
 Definition Ab (bn : string) (ins outs : list string) (inst : string) (conns : list (string * list string)) :=
-  OAddBlackbox (mk_bb bn ins outs) inst ins outs conns.      (* ins/outs: recorded iteration order of the two sets *)
-Definition As := OAddSubcircuit.
-Definition Fb := OFillBlackbox.
+  XO (OAddBlackbox (mk_bb bn ins outs) inst ins outs conns).      (* ins/outs: recorded iteration order of the two sets *)
+Definition As SC name conns := XO (OAddSubcircuit SC name conns).
+Definition Fb inst SC := XO (OFillBlackbox inst SC).
+(* add(n, t, fanin, fanout, output, add_connected_nodes, allow_redefinition, uid) *)
+Definition Ax n t fi fo out conn redef u := XAdd n t fi fo {| af_out := out; af_conn := conn; af_redef := redef; af_uid := u |}.
 
 (* ---------------- agree: model = implementation, after every call *)
 Definition outcome_matches (oc : outcome) (r : res string) : bool :=
   match oc, r with Done, Ok _ => true | Fail e, Raise e' => bool_decide (e = e') | _, _ => false end.
-Definition ret_matches (C : Circuit) (o : op) (r : res string) : bool :=
+Definition ret_matches (C : Circuit) (o : xop) (r : res string) : bool :=
   match o, r with
-  | OAdd n t fi fo out u, Ok s =>
+  | XO (OAdd n t fi fo out u), Ok s =>
       bool_decide ((add_g (c_g C) n t fi fo {| af_out := out; af_conn := false; af_redef := false; af_uid := u |}).2 = s)
+  | XAdd n t fi fo fl, Ok s => bool_decide ((add_g (c_g C) n t fi fo fl).2 = s)
   | _, _ => true end.
 Fixpoint agree_from (C : Circuit) (l : list rstep) : bool :=
   match l with
   | [] => true
   | (o, r, s) :: l' =>
       let C' := default C s in
-      let M := step C o in
+      let M := xstep C o in
       bool_decide (M.1 = C') && outcome_matches M.2 r && ret_matches C o r && agree_from C' l'
   end.
 Definition agree (k : case) : bool := match k with CHist C l => agree_from C l end.
@@ -76,17 +79,44 @@ Definition add_ok (C C' : Circuit) (o : op) (r : res string) : bool :=
       | Ok s => negb (bool_decide (s ∈ dom (c_g C))) && bool_decide (ty (c_g C') s = Some t) && (u || bool_decide (s = n))
       | _ => true end
   | _ => true end.
-Fixpoint holds_from (C : Circuit) (R : gset string) (l : list rstep) : bool :=
+(* the plain operations of the property *)
+Definition holds_step (C C' : Circuit) (R' : gset string) (o : op) (r : res string) : bool :=
+  invb C' && pins_okb C' R' &&
+  match r with
+  | Ok _ => negb (illegal C o)
+  | Raise e => bool_decide (edges (c_g C') ⊆ edges (c_g C)) && exn_ok o e
+  | _ => false end &&
+  add_ok C C' o r.
+(* add with add_connected_nodes / allow_redefinition.  Without redefinition everything the property says about add is
+   demanded (missing neighbours are created, so they are not illegal); with redefinition a wired node may be retyped, which
+   the property does not cover: closedness, documented types, the exception class and no-new-edge-on-reject are demanded *)
+Definition holds_xadd (C C' : Circuit) (R' : gset string) (n : string) (t : gtype) (fi fo : list string) (fl : add_flags) (r : res string) : bool :=
+  bool_decide (c_bbs C' = c_bbs C) &&
+  match r with
+  | Ok s => bool_decide (ty (c_g C') s = Some t) && (af_uid fl || bool_decide (s = n))
+  | Raise e => bool_decide (edges (c_g C') ⊆ edges (c_g C)) && bool_decide (e = ValueError)
+  | _ => false end &&
+  (if af_redef fl then inv0b C'
+   else invb C' && pins_okb C' R' && preserved (c_g C) (c_g C') &&
+        match r with Ok s => negb (bool_decide (s ∈ dom (c_g C))) && bool_decide (t ∈ documented_types) | _ => true end).
+(* a history may leave the invariant only through a redefining add; from then on only the weak invariant is demanded *)
+Fixpoint weak_from (C : Circuit) (l : list rstep) : bool :=
   match l with
   | [] => true
-  | (o, r, s) :: l' =>
-      let C' := default C s in
-      let R' := R ∪ removed_by o in
-      invb C' && pins_okb C' R' &&
-      match r with
-      | Ok _ => negb (illegal C o)
-      | Raise e => bool_decide (edges (c_g C') ⊆ edges (c_g C)) && exn_ok o e
-      | _ => false end &&
-      add_ok C C' o r && holds_from C' R' l'
+  | (x, r, s) :: l' => let C' := default C s in
+      inv0b C' && match r with Raise e => bool_decide (edges (c_g C') ⊆ edges (c_g C)) | Ok _ => true | _ => false end && weak_from C' l'
   end.
-Definition holds (k : case) : bool := match k with CHist C l => invb C && pins_okb C ∅ && holds_from C ∅ l end.
+Fixpoint holds_hist (C : Circuit) (R : gset string) (l : list rstep) : bool :=
+  match l with
+  | [] => true
+  | (x, r, s) :: l' =>
+      let C' := default C s in
+      let R' := R ∪ match x with XO o => removed_by o | _ => ∅ end in
+      match x with
+      | XO o => holds_step C C' R' o r && holds_hist C' R' l'
+      | XAdd n t fi fo fl =>
+          holds_xadd C C' R' n t fi fo fl r &&
+          (if af_redef fl && negb (invb C' && pins_okb C' R') then weak_from C' l' else holds_hist C' R' l')
+      end
+  end.
+Definition holds (k : case) : bool := match k with CHist C l => invb C && pins_okb C ∅ && holds_hist C ∅ l end.
